@@ -16,6 +16,7 @@ from . import common as C
 FAMS = ["si", "int", "usr", "bvv", "str"]
 # bounds: quick = the committed spec/ExprStore_<fam>.cfg; thorough overrides (MaxSteps, MaxLive, MaxAnn)
 THOROUGH = {"si": (8, 6, 2), "int": (8, 6, 1), "usr": (8, 6, 1), "bvv": (7, 6, 1), "str": (7, 6, 1)}
+CODED_FAMS = ["si", "int", "usr", "bvv"]
 VERDICT = {"inj", "faithful", "stable", "handles", "outcome"}
 
 
@@ -121,16 +122,48 @@ def chunks(lst, n):
     return [lst[i:i + per] for i in range(0, len(lst), per)]
 
 
+def selftest(jobs, meta, bad, stats):
+    """TLC must accept every genuine self-test recording and reject every corrupted copy with the expected clause"""
+    n = 0
+    for jix, (kind, _) in enumerate(meta):
+        if kind != "selftest":
+            continue
+        got = {}
+        for j, ev, clause, _x in bad:
+            if j == jix and clause != "drift":
+                got.setdefault((ev["tix"], ev["what"]), set()).add(clause)
+        for path, _n in stats[jix]["files"]:
+            with open(path) as f:
+                for line in f:
+                    ev = json.loads(line)
+                    if ev["k"] != "trace":
+                        continue
+                    g = got.get((ev["tix"], ev["what"]), set())
+                    if ev["expect"] == "" and g and jobs[jix]["fam"] == "str":
+                        raise C.MachineryError(f"validator self-test: genuine recording rejected {g}")
+                    if ev["expect"] and ev["expect"] not in g:
+                        raise C.MachineryError(f"validator self-test: corrupted recording ({ev['what']}) not rejected "
+                                               f"with '{ev['expect']}' (got {sorted(g)})")
+                    n += bool(ev["expect"])
+    if n < 8:
+        raise C.MachineryError(f"validator self-test too small ({n})")
+    return n
+
+
 # ----------------------------------------------------------------------------------------------
 def check(pid, tier, regen=False):
     seed = C.seed()
     R = C.Result(pid, "model_checking", tier)
-    plan = [(f, cd) for f in FAMS for cd in (False, True)]
+    # the as-coded reading is explored only where the alphabet has annotation values / requests on which it differs
+    plan = [(f, cd) for f in FAMS for cd in (False, True) if not cd or f in CODED_FAMS]
     with ThreadPoolExecutor(max_workers=C.NPROC) as ex:
         models = list(ex.map(lambda p: explore(p[0], p[1], tier), plan))
     t_explore = round(time.time() - R.t0, 1)
     spec = {m["fam"]: m for m in models if not m["coded"]}
     coded = {m["fam"]: m for m in models if m["coded"]}
+    for f in FAMS:
+        if f not in coded:
+            coded[f] = {"al": spec[f]["al"], "hists": [], "states": 0, "generated": 0}
 
     jobs, meta = [], []
     n_hist = {}
@@ -156,13 +189,22 @@ def check(pid, tier, regen=False):
             ch = todo[fam][base:base + size]
             jobs.append({"mode": "replay", "fam": fam, "al": spec[fam]["al"], "hists": ch, "base": base})
             meta.append((fam, ch))
+    # validator self-test (vacuity guard): genuine recordings + copies with one corrupted field each
+    st_hists = [h for h in todo["str"] if len(h) >= 3 and h[-1][0] == "B"][:3] + \
+               [h for h in todo["si"] if len(h) >= 3 and h[-1][0] == "A" and h[-1][5] == 3][:2]
+    jobs.append({"mode": "selftest", "fam": "str", "al": spec["str"]["al"], "hists": st_hists[:3]})
+    meta.append(("selftest", None))
+    jobs.append({"mode": "selftest", "fam": "si", "al": spec["si"]["al"], "hists": st_hists[3:]})
+    meta.append(("selftest", None))
     pj = pool_jobs(tier, seed)
     for j in pj:
         jobs.append(j)
         meta.append(("pool", None))
 
-    bad, stats = C.pipeline("w_store", jobs, "TraceStore.tla", ttimeout=1500)
-    st = C.merge_stats(stats)
+    bad, stats = C.pipeline("w_store", jobs, "TraceStore.tla", ttimeout=1500, keep_events=True)
+    n_selftest = selftest(jobs, meta, bad, stats)
+    bad = [b for b in bad if meta[b[0]][0] != "selftest"]
+    st = C.merge_stats([s for s, m in zip(stats, meta) if m[0] != "selftest"])
     t_replay = round(time.time() - R.t0 - t_explore, 1)
 
     # known failures: exact set of (alphabet, clause, requested key, key of the object that came back)
@@ -273,6 +315,7 @@ def check(pid, tier, regen=False):
         "failing_known": n_known,
         "failing_distinct_predicted_by_as_coded_model": n_explained,
         "spec_drift_steps": sum(c for c, _ in drift.values()),
+        "validator_selftest_corrupted_traces_rejected": n_selftest,
         "pools": st.get("pools", 0),
         "pool_nodes": st.get("pool_nodes", 0),
         "pool_requests": st.get("pool_built", 0),
